@@ -584,6 +584,8 @@ def expected_simple(sc, res):
             return {"ret": max_subtree_len(sc["v"])}
         if f == "hash_derive_key_context":
             return {"out_hex": b3spec.context_key(sc["context"]).hex()}
+    if k == "mmap_special":
+        return {"same": True}
     if k == "hex":
         op = sc["op"]
         if op == "from_hex":
@@ -1078,7 +1080,9 @@ def fam_reader(rng):
 
 
 def fam_rayon_mmap(rng):
-    out = []
+    # files that open, seek and read but may refuse mmap (sysfs / procfs); skipped by the driver when absent
+    out = [{"kind": "mmap_special", "path": p} for p in ("/sys/kernel/btf/vmlinux", "/proc/self/maps",
+                                                          "/sys/kernel/notes")]
     mi = 0
     for n in (0, 1, 1025, 16383, 16384, 16385, 32769, 70001, 131073, 200000):
         for via in ("rayon", "mmap", "mmap_rayon"):
